@@ -15,6 +15,14 @@ Record pi_latest := {
   pl_prev : list bytes              (* PrevEventIDs *)
 }.
 
+(* the invited server's answer to the invite that was sent *)
+Inductive pi_answer :=
+| PSErr                              (* error *)
+| PSNil                              (* no error and no event *)
+| PSSame (signed_by_invitee : bool)  (* the event sent, with nothing but signatures / unsigned changed;
+                                        does it carry a signature entry of the invited server? *)
+| PSOther.                           (* some other event *)
+
 Record pi_input := {
   pi_version : bytes;
   pi_target_local : bool;
@@ -32,14 +40,14 @@ Record pi_input := {
   pi_build_ok : bool;
   pi_provider_ok : bool;            (* StateQuerier.GetAuthEvents succeeds *)
   pi_allowed_ok : bool;             (* Allowed(built event, provider) == nil *)
-  pi_send_ok : bool                 (* fedClient.SendInvite succeeds *)
+  pi_send : pi_answer               (* what fedClient.SendInvite comes back with *)
 }.
 
 (* what is handed back *)
 Inductive pi_event :=
 | PIBuilt (state_key : bytes) (depth : Z) (auth prev : list bytes) (signers : list bytes)
           (invite_room_state : json)
-| PIRemote.                          (* whatever the invited server answered *)
+| PIRemote.                          (* the invited server's answer: the event sent, countersigned *)
 
 Record pi_result := { pir_out : outcome; pir_log : list bytes; pir_event : option pi_event }.
 
@@ -47,6 +55,11 @@ Definition pfail (o : outcome) (log : list bytes) : pi_result :=
   {| pir_out := o; pir_log := log; pir_event := None |}.
 
 Definition truncate {A} (n : nat) (l : list A) : list A := firstn n l.
+
+Definition both_names (a b : bytes) : list bytes := if bytes_eqb a b then [a] else [a; b].
+
+Definition send_answer_ok (a : pi_answer) : bool :=
+  match a with PSNil | PSSame true => true | _ => false end.
 
 (* from StateNeededForProtoEvent to the end *)
 Definition pi_core (i : pi_input) (state : list json) (log2 : list bytes) : pi_result :=
@@ -66,17 +79,24 @@ Definition pi_core (i : pi_input) (state : list json) (log2 : list bytes) : pi_r
             let log4 := log3 ++ [bs "A"] in
             if negb (pi_provider_ok i) then pfail OForbidden log4
             else if negb (pi_allowed_ok i) then pfail OForbidden log4
-            else if pi_target_local i then
-              {| pir_out := OOk; pir_log := log4;
-                 pir_event := Some (PIBuilt (pi_invitee i) (pl_depth le)
-                                      (truncate 10 (pl_refs le)) (truncate 20 (pl_prev le))
-                                      [pi_inviter_domain i; pi_invitee_domain i]
-                                      (match state with [] => JObj [] | _ => JArr state end)) |}
             else
-              (* the event sent carries signatures under both server names *)
-              let log5 := log4 ++ [entry [bs "SI"; pi_invitee i; pi_inviter_domain i; pi_invitee_domain i]] in
-              if negb (pi_send_ok i) then pfail OForbidden log5
-              else {| pir_out := OOk; pir_log := log5; pir_event := Some PIRemote |}
+              (* the built event is signed under the inviter's server name, and under the invitee's
+                 only when the invitee is local *)
+              let built (signers : list bytes) :=
+                PIBuilt (pi_invitee i) (pl_depth le) (truncate 10 (pl_refs le)) (truncate 20 (pl_prev le))
+                        signers (match state with [] => JObj [] | _ => JArr state end) in
+              if pi_target_local i then
+                {| pir_out := OOk; pir_log := log4;
+                   pir_event := Some (built (both_names (pi_inviter_domain i) (pi_invitee_domain i))) |}
+              else
+                let log5 := log4 ++ [entry [bs "SI"; pi_invitee i; pi_inviter_domain i]] in
+                match pi_send i with
+                | PSErr => pfail OForbidden log5
+                | PSNil => {| pir_out := OOk; pir_log := log5; pir_event := Some (built [pi_inviter_domain i]) |}
+                | PSSame true => {| pir_out := OOk; pir_log := log5; pir_event := Some PIRemote |}
+                | PSSame false => pfail OForbidden log5
+                | PSOther => pfail OForbidden log5
+                end
       end
   end.
 
@@ -121,4 +141,4 @@ Definition perform_invite_admissible (i : pi_input) : bool :=
   end &&
   match pi_latest_q i with Some le => pl_room_exists le | None => false end &&
   pi_build_ok i && pi_provider_ok i && pi_allowed_ok i &&
-  (pi_target_local i || pi_send_ok i).
+  (pi_target_local i || send_answer_ok (pi_send i)).
